@@ -251,7 +251,14 @@ def _read_status(sim, m, a):
 @op("sq.read_twap")
 def _read_twap(sim, m, a):
     tok = sim.token(a.get("token", "WETH"))
-    sim.sq_call = {"kind": "read_twap", "token": tok.name}
+    back = min(int(a.get("back", 0)), max(sim.bar, 0))
+    sim.sq_call = {"kind": "read_twap", "token": tok.name, "back": back}
+    if back > 0 and sim.snapshot is not None:
+        # the optional end time: the TWAP as of an earlier bar (a 'now against N bars ago' signal)
+        iv = sim.world.get("interval", "1min")
+        now = (pd.Timestamp(sim.snapshot.timestamp) - back * pd.Timedelta(iv if iv[0].isdigit() else "1" + iv)).to_pydatetime()
+        return lambda: m.get_twap_price(tok, now)
+    sim.sq_call["back"] = 0
     return lambda: m.get_twap_price(tok)
 
 
